@@ -62,6 +62,23 @@ Theorem C12_LN_grad : forall pre post x ys,
   is_derive (fun t => LNF_cell (pre ++ t :: post) ys) x (LNF_grad xs ys x).
 Proof. exact LN_grad. Qed.
 
-(* C12_grad_partial: for the KDE and mixture filters the gradient formulas of the model (KDE_grad_z, GMIX_grad) are
-   tied to chi by the certified correspondence and checked against finite differences by the search oracle, but
-   their is_derive theorems are not proved. *)
+Theorem C12_GKDE_grad : forall pre post x ys,
+  let xs := pre ++ x :: post in
+  1 < nR xs -> 0 < var xs ->
+  is_derive (fun t => GKDE_cell (pre ++ t :: post) ys) x (GKDE_grad xs ys x).
+Proof. exact GKDE_grad_correct. Qed.
+Theorem C12_LNKDE_grad : forall pre post x ys,
+  let xs := pre ++ x :: post in
+  0 < x -> 1 < nR xs -> 0 < var (map ln xs) ->
+  is_derive (fun t => LNKDE_cell (pre ++ t :: post) ys) x (LNKDE_grad xs ys x).
+Proof. exact LNKDE_grad_correct. Qed.
+
+(* Gaussian mixture filter: the cell as a function of its blocks (GMIX_cell k m xs ys is GMIX_cell_blocks k
+   (blocks k m xs) ys by definition); x is a simulated value of block b *)
+Theorem C12_GMIX_cell_blocks : forall k m xs ys, GMIX_cell k m xs ys = GMIX_cell_blocks k (blocks k m xs) ys.
+Proof. exact GMIX_cell_is_blocks. Qed.
+Theorem C12_GMIX_grad : forall k m xs ys (bs1 bs2 : list (list R)) bpre bpost x,
+  let b := bpre ++ x :: bpost in
+  blocks k m xs = bs1 ++ b :: bs2 -> nR b = INR m -> 1 < INR m -> 0 < var b ->
+  is_derive (fun t => GMIX_cell_blocks k (bs1 ++ (bpre ++ t :: bpost) :: bs2) ys) x (GMIX_grad k m xs ys b x).
+Proof. exact GMIX_grad_model. Qed.
